@@ -72,4 +72,35 @@ def c11(tier, seed):
             "assumptions": ASSUME}
 
 
-PLANS = {"C06": c06, "C07": c07, "C11": c11}
+RUNNERS_CC = [{"source": "cc_run.cpp", "name": "cc_run_list", "defines": ["W_OBJ=0"]},
+              {"source": "cc_run.cpp", "name": "cc_run_map", "defines": ["W_OBJ=1"]},
+              {"source": "cc_run.cpp", "name": "cc_run_umap", "defines": ["W_OBJ=2"]}]
+
+
+def cc_cfg(threads, scen, defects=(), initlen=2, maxnodes=6):
+    return ("INIT Init\nNEXT Next\nCONSTANTS Threads = {%s}\n Scenarios <- %s\n InitLen = %d\n MaxNodes = %d\n Defects = %s\n"
+            "INVARIANT Linearizable\nINVARIANT RefinesList\nINVARIANT NoLeakAtEnd\nINVARIANT NoDeadlock\nCHECK_DEADLOCK FALSE\n"
+            % (", ".join(map(str, threads)), scen, initlen, maxnodes, tla_value(set(defects))))
+
+
+def c03(tier, seed):
+    quick = tier == "quick"
+    sc2 = ["2:i1|r1", "2:i2|r2,a", "2:a,v|r1", "2:r1|r1", "2:p,o1|r1,e", "2:v|r2,a", "2:i1,v|r1,a", "2:a,r10|v", "1:r1,e|a,e", "2:f|i2,r1", "0:a,r10|e,v",
+           "2:i1|i1", "2:p|a", "2:o1,o2|r1,r2", "3:v|r2,r3"]
+    sc3 = ["2:i1|r1|v", "2:a|p|r1", "2:r1|r1|i1", "2:v|a,r20|r2", "2:i1|r1|r1", "2:f|r1|i1"]
+    scen = [{"scenario": s, "bound": 3 if len(s) < 9 else 2} for s in sc2] + [{"scenario": s, "max": 3000 if quick else 100000, "bound": 1} for s in sc3]
+    models = [{"module": "ConcCLMC", "tag": "2threads", "cfg": cc_cfg([1, 2], "ScenSet")}]
+    if not quick:
+        models.append({"module": "ConcCLMC", "tag": "3threads-1call", "cfg": cc_cfg([1, 2, 3], "ScenSet1"), "heap": "16g"})
+    return {"models": models, "runners": RUNNERS_CC, "trace_module": "TraceCC", "scenarios": scen,
+            "corpus": [],
+            "rule": "ConcCL.tla (threads x micro-steps of callbacklist.h with the abstract list updated at the linearization points) model-checked over all "
+                    "interleavings of the scenario sets; on the real CallbackList and EventDispatcher (std::map and std::unordered_map) every scenario "
+                    "(all mixes of append/prepend/insert/remove/ownsHandle/empty/invoke/forEach with shared handles) is explored by depth-first "
+                    "schedule enumeration with a preemption bound plus seeded random schedules; TraceCC.tla decides linearizability of results and of "
+                    "the final order by tracking the set of consistent abstract configurations, the traversal visit rules, no deadlock and no unlocked "
+                    "structural access; non-trivial = distinct schedules that switch threads at a decision point",
+            "assumptions": ASSUME + ["the shipped std::mutex / SpinLock policies are replaced by the controlled mutex in these runs"]}
+
+
+PLANS = {"C03": c03, "C06": c06, "C07": c07, "C11": c11}
